@@ -244,6 +244,14 @@ func (b *Buffer) Read(packet []byte) (n int, err error) { //nolint:gocognit,cycl
 			}
 
 			b.count--
+			if b.head != b.tail && !b.closed {
+				// more packets are buffered: pass the wake-up token on,
+				// another reader may be waiting for it.
+				select {
+				case b.notify <- struct{}{}:
+				default:
+				}
+			}
 			b.mutex.Unlock()
 
 			if copied < count {
